@@ -50,7 +50,22 @@ def run(prop, path):
         case.streams = [bytes(s) for s in t["streams"][:nconn]]
         case.sent = [list(s) for s in t["sent"][:nconn]]
         case.schedule = [(e["conn"], e["n"]) for e in t["ev"] if e["op"] == "feed"]
-        nt = SC.run_case(case)
+        probe = None
+        if has_probe and t["fe"] != "syncSerial":
+            if t.get("probe_existing"):
+                # the probe was sent on the last connection, which had been open and idle: take it off that stream again
+                nconn = len(t["sent"])
+                case.streams = [bytes(s) for s in t["streams"]]
+                case.sent = [list(s) for s in t["sent"]]
+                pg = case.sent[-1].pop()
+                pb = case.streams[-1][pg["start"] - 1:]
+                case.streams[-1] = case.streams[-1][:pg["start"] - 1]
+                case.probe_existing = True
+            else:
+                pg = t["sent"][-1][0]
+                pb = bytes(t["streams"][-1])
+            probe = {"bytes": pb, "uid": pg["uid"], "tid": pg["tid"], "pdu": pg["pdu"]}
+        nt = SC.run_case(case, probe=probe)
         v, _ = validate_traces("ServerTrace", "ServerTrace.cfg", [nt], shards=1)
     else:
         mode = "recorded trace re-validated (this engine's inputs are not re-executable from the file)"
